@@ -67,9 +67,16 @@ def _find_caches() -> list:
         except Exception:
             continue
         for v in vars(m).values():
-            if callable(getattr(v, "cache_clear", None)) and id(v) not in seen:
-                seen.add(id(v))
-                found.append(v)
+            cands = [v]
+            if isinstance(v, type) and getattr(v, "__module__", "").startswith("dep_logic"):
+                # caches hung on methods / classmethods / staticmethods of dep_logic classes
+                for w in vars(v).values():
+                    cands.append(getattr(w, "__func__", w))
+                    cands.append(getattr(w, "fget", None))
+            for c in cands:
+                if c is not None and callable(getattr(c, "cache_clear", None)) and id(c) not in seen:
+                    seen.add(id(c))
+                    found.append(c)
     return found
 
 
